@@ -3,7 +3,8 @@
 // Bounded-exhaustive differential check: each *family* enumerates a finite space of program fragments completely
 // (every binary operator x every ordered pair of boundary values of every sized numeric type, every shift count,
 // every conversion pair, every slice-aliasing op sequence up to a length, every control-flow skeleton up to a nesting
-// depth, every runtime-panic class at every position ...).  A family is emitted as ONE program text that is valid Go
+// depth, every runtime-panic class at every position, every way of comparing a composite value holding NaN/+-0 with
+// itself and with copies, every range loop form x range expression x element kind x body write pattern ...).  A family is emitted as ONE program text that is valid Go
 // and valid Gno; the Go side is compiled with the Go toolchain and run, the Gno side is run in-process by the real
 // GnoVM (gnolang.Machine + stdlibs from $VERIF_REPO), both print one line per case and the outputs are compared
 // line by line.  Only the differences the compatibility document allows are tolerated (the harness encodes them:
@@ -48,9 +49,10 @@ func repoDir() string {
 
 // unit: an independent group of cases: top-level declarations + the name of a func() to call from main.
 type unit struct {
-	key   string // stable descriptor
-	decls string
-	fn    string
+	key      string // stable descriptor
+	decls    string
+	fn       string
+	noReduce bool // report a finding by its case label, without delta debugging (like the big value tables)
 }
 
 type family struct {
@@ -334,6 +336,8 @@ func panicClass(m string) string {
 		return "NILDEREF"
 	case has("interface conversion"), has("is not of type"), has("type assertion"), has("does not implement"), has("missing method"):
 		return "TYPEASSERT"
+	case has("comparing uncomparable"):
+		return "UNCOMPARABLE"
 	case has("negative shift amount"):
 		return "NEGSHIFT"
 	case has("makeslice"), has("len out of range"), has("cap out of range"):
